@@ -11,7 +11,9 @@ def sigmoid(x: Interval):
 
 
 def tanh(x: Interval):
-    return (exp(2 * x) - 1) / (exp(2 * x) + 1)
+    # single occurrence of x: exact range, and no inf / inf = NaN once exp(2 * x) overflows
+    # (the form (exp(2x) - 1) / (exp(2x) + 1) raised AssertionError for x > 354.9)
+    return 1 - 2 / (1 + exp(2 * x))
 
 
 def relu(x):
